@@ -148,6 +148,8 @@ def report_counterexample(ctx, label, ep_ops, kind, known_open):
     small = corr.shrink(ep_ops, fails) if len(ep_ops) > 2 else ep_ops
     st = corr.run_streams(small)
     name = hashlib.blake2b('\n'.join(small).encode(), digest_size=5).hexdigest()
+    if any(name in p for p, _ in ctx.violations):
+        return
     path = write_replay(prop.pid, name, {
         'property': prop.pid, 'kind': 'counterexample', 'how': kind, 'run': label, 'seed': ctx.seed,
         'ops': small, 'expected_spec': st.spec, 'actual_impl': st.impl, 'model': st.model, 'crash': st.crashed})
@@ -214,6 +216,8 @@ def main(argv):
     if a.replay:
         return do_replay(prop, a.replay)
     t0 = time.time()
+    for old in glob.glob(os.path.join(VERIF, 'replays', prop.pid + '-*.json')):
+        os.remove(old)
     ctx = Ctx(prop, a.tier, a.seed)
     obligations = []
     broken = []           # (obligation name, detail)
